@@ -103,7 +103,7 @@ LOOPS = {
     ("bit-reverse", "lp"): dict(kind="fuel", types=["Z", "Z", "Z"], ret="Z"),
     ("vector->bits", "lp"): dict(kind="fuel", types=["Z", "Z", "Z"], ret="Z"),
     ("bits->vector", "lp"): dict(kind="fuel", types=["Z", "Z"], ret="list bool"),
-    ("bitwise-fold", "lp"): dict(kind="fuel", types=["Z", "A"], ret="A"),
+    ("bitwise-fold", "lp"): dict(kind="fuel", types=["Z", "Z", "A"], ret="A"),
     ("bitwise-unfold", "lp"): dict(kind="fuel", types=["St", "Z", "Z"], ret="Z"),
 }
 PRIM2 = {"bit-and": "Z.land", "bit-ior": "Z.lor", "bit-xor": "Z.lxor", "arithmetic-shift": "Z.shiftl", "modulo": "Z.modulo"}
@@ -567,11 +567,13 @@ SIG142 = {"bitwise-if": dict(params=[("mask", "Z"), ("n", "Z"), ("m", "Z")], ret
 IMPORT142 = [["chibi"], ["rename", ["srfi", "151"], ["bitwise-if", "srfi-151:bitwise-if"], ["bits->list", "integer->list"],
                          ["list->bits", "list->integer"], ["bits->vector", "integer->vector"], ["vector->bits", "vector->integer"]]]
 SIG33 = {"mask": dict(params=[("len", "Z")], ret="Z"),
+         "test-bit-field?": dict(params=[("size", "Z"), ("position", "Z"), ("n", "Z")], ret="bool"),
+         "clear-bit-field": dict(params=[("size", "Z"), ("position", "Z"), ("n", "Z")], ret="Z"),
          "extract-bit-field": dict(params=[("size", "Z"), ("position", "Z"), ("n", "Z")], ret="Z"),
          "replace-bit-field": dict(params=[("size", "Z"), ("position", "Z"), ("newfield", "Z"), ("n", "Z")], ret="Z"),
          "copy-bit-field": dict(params=[("size", "Z"), ("position", "Z"), ("from", "Z"), ("to", "Z")], ret="Z")}
 IMPORT33 = [["scheme", "base"], ["rename", ["srfi", "142"], ["bitwise-if", "bitwise-merge"], ["any-bit-set?", "any-bits-set?"],
-                                 ["every-bit-set?", "all-bits-set?"], ["bit-field-any?", "test-bit-field?"], ["bit-field-clear", "clear-bit-field"]]]
+                                 ["every-bit-set?", "all-bits-set?"]]]
 
 
 def library(src, libname, imports_expected):
@@ -629,32 +631,41 @@ Local Open Scope Z_scope.
 """
 
 
+def texts(lib):
+    """(text of Gen/C17_Bitwise.v, text of Gen/C17_Wrappers.v) for the sources under lib = .../lib/srfi; raises Unsupported"""
+    tr = translate_forms(Translator(), read_all(open(os.path.join(lib, "151", "bitwise.scm")).read()))
+    defs, _, _ = translate_wrappers(tr, open(os.path.join(lib, "142.sld")).read(), open(os.path.join(lib, "33.sld")).read())
+    whead = HEADER.replace("lib/srfi/151/bitwise.scm", "lib/srfi/142.sld and lib/srfi/33.sld") + "From ChibiV Require Import Gen.C17_Bitwise.\n"
+    return HEADER + "\n" + "\n\n".join(tr.out) + "\n", whead + "\n" + "\n\n".join(defs) + "\n"
+
+
 def regen(ctx):
+    """On a source outside the subset: ctx.broken (the check fails), and the PINNED translation of the last validated source is
+    emitted instead, so that the extracted model still builds and the correspondence runs can look for a failing input."""
     lib = os.path.join(B.REPO, "lib", "srfi")
     try:
-        tr = translate_forms(Translator(), read_all(open(os.path.join(lib, "151", "bitwise.scm")).read()))
-        text = HEADER + "\n" + "\n\n".join(tr.out) + "\n"
+        btext, wtext = texts(lib)
         ok = True
-    except Unsupported as e:
-        ctx.broken("gen:C17_Bitwise", "lib/srfi/151/bitwise.scm is outside the translator's subset: %s" % e)
-        text, ok, tr = HEADER + "\n(* translation failed *)\n", False, None
-    ctx.gen("C17_Bitwise", text)
-    wtext = HEADER.replace("lib/srfi/151/bitwise.scm", "lib/srfi/142.sld and lib/srfi/33.sld") + "From ChibiV Require Import Gen.C17_Bitwise.\n"
-    if tr is not None:
-        try:
-            defs, _, _ = translate_wrappers(tr, open(os.path.join(lib, "142.sld")).read(), open(os.path.join(lib, "33.sld")).read())
-            wtext += "\n" + "\n\n".join(defs) + "\n"
-        except Unsupported as e:
-            ctx.broken("gen:C17_Wrappers", "lib/srfi/142.sld / 33.sld are outside the translator's subset: %s" % e)
-            ok = False
+    except Exception as e:      # Unsupported, or any accident of the translator on text far outside the subset
+        ctx.broken("gen:C17_Bitwise", "lib/srfi/151/bitwise.scm, 142.sld or 33.sld is outside the translator's subset (%s: %s); the theorems "
+                   "about the derived operations speak about the pinned translation of the previous text until the translator is extended" % (type(e).__name__, e))
+        from gen import c17_bitwise_pinned as P
+        note = "(* FALLBACK: the current source is outside the translator's subset; this is the pinned translation *)\n"
+        btext, wtext, ok = note + P.BITWISE, note + P.WRAPPERS, False
+    ctx.gen("C17_Bitwise", btext)
     ctx.gen("C17_Wrappers", wtext)
     return ok
 
 
-if __name__ == "__main__":
+if __name__ == "__main__":      # python3 gen/c17_bitwise.py <repo>/lib/srfi [--pin]   (--pin rewrites gen/c17_bitwise_pinned.py)
     import sys
-    t = translate_forms(Translator(), read_all(open(sys.argv[1]).read()))
-    if len(sys.argv) > 3:
-        print("\n\n".join(translate_wrappers(t, open(sys.argv[2]).read(), open(sys.argv[3]).read())[0]))
+    b, w = texts(sys.argv[1])
+    if "--pin" in sys.argv:
+        with open(os.path.join(os.path.dirname(os.path.abspath(__file__)), "c17_bitwise_pinned.py"), "w") as fh:
+            fh.write('"""C17: translation of the validated lib/srfi/151/bitwise.scm, 142.sld, 33.sld (with fixes/C17-*.patch), used by\n'
+                     'gen/c17_bitwise.py only as a FALLBACK when the current source is outside the translator\'s subset (the check then fails\n'
+                     'with gen:C17_Bitwise, but the model still builds).  Regenerate: PYTHONPATH=/verif python3 gen/c17_bitwise.py <repo>/lib/srfi --pin"""\n')
+            fh.write("BITWISE = %r\n\nWRAPPERS = %r\n" % (b, w))
     else:
-        print(HEADER + "\n" + "\n\n".join(t.out))
+        print(b)
+        print(w)
